@@ -187,3 +187,111 @@ theorem destWF_of_listBelow (fs : FS) (hw : fs.Wf) (r : FPath)
     exact hne (hkeys a b ha hb this.symm)
 
 end Rj
+
+namespace Rj
+open FS
+
+/-- the representation invariant survives every update -/
+theorem Wf_set (fs : FS) (hw : fs.Wf) (p : FPath) (n : Option Node) : (fs.set p n).Wf := by
+  unfold FS.Wf FS.set at *
+  have hfil : ((fs.nodes.filter fun e => !(e.1 == p)).map (·.1)).Nodup := by
+    have : (fs.nodes.filter fun e => !(e.1 == p)).Sublist fs.nodes := List.filter_sublist
+    exact List.Nodup.sublist (this.map _) hw
+  have hnot : p ∉ (fs.nodes.filter fun e => !(e.1 == p)).map (·.1) := by
+    intro h
+    obtain ⟨a, ha, e⟩ := List.mem_map.mp h
+    have := (List.mem_filter.mp ha).2
+    simp [e] at this
+  cases n with
+  | none => simpa using hfil
+  | some x =>
+    simp only [List.singleton_append, List.map_cons, List.nodup_cons]
+    exact ⟨hnot, hfil⟩
+
+theorem withAnc_ok' {fs : FS} {p : FPath} {k : OpR FS} {fs' : FS} (h : fs.withAnc p k = .ok fs') : k = .ok fs' :=
+  (withAnc_ok h).2
+
+/-- every call of the model keeps the invariant -/
+theorem Wf_delOp {fs fs' : FS} {r : FPath} {x : FPath × Node} (hw : fs.Wf) (h : delOp fs r x = .ok fs') : fs'.Wf := by
+  rw [delOp_ok_eq h]; exact Wf_set fs hw _ _
+
+theorem Wf_runDels {r : FPath} (todo : List (FPath × Node)) (fs fs' : FS) (hw : fs.Wf)
+    (h : runOps (fun f x => delOp f r x) fs todo = .ok fs') : fs'.Wf := by
+  induction todo generalizing fs with
+  | nil => simp only [runOps] at h; cases h; exact hw
+  | cons x xs ih =>
+    simp only [runOps] at h
+    cases hop : delOp fs r x with
+    | err => simp [hop, OpR.bind] at h
+    | escape => simp [hop, OpR.bind] at h
+    | ok fs1 =>
+      simp only [hop, OpR.bind] at h
+      exact ih fs1 (Wf_delOp hw hop) h
+
+end Rj
+
+namespace Rj
+open FS
+
+theorem Wf_mkdir {fs fs' : FS} {p : FPath} (hw : fs.Wf) (h : fs.mkdir p = .ok fs') : fs'.Wf := by
+  have := withAnc_ok' h
+  split at this
+  · cases this; exact Wf_set fs hw _ _
+  · cases this
+
+theorem Wf_mksymlink {fs fs' : FS} {p : FPath} {t : List UInt8} (hw : fs.Wf) (h : fs.mksymlink p t = .ok fs') : fs'.Wf := by
+  unfold FS.mksymlink at h
+  split at h
+  · cases h
+  · have := withAnc_ok' h
+    split at this
+    · cases this; exact Wf_set fs hw _ _
+    · cases this
+
+theorem Wf_createTrunc {fs fs' : FS} {p : FPath} (hw : fs.Wf) (h : fs.createTrunc p = .ok fs') : fs'.Wf := by
+  have := withAnc_ok' h
+  split at this <;> first | (cases this; exact Wf_set fs hw _ _) | cases this
+
+theorem Wf_append {fs fs' : FS} {p : FPath} {d : List UInt8} (hw : fs.Wf) (h : fs.append p d = .ok fs') : fs'.Wf := by
+  unfold FS.append at h
+  split at h
+  · cases h; exact Wf_set fs hw _ _
+  · cases h
+
+theorem Wf_setMtime {fs fs' : FS} {p : FPath} {t : Int} (hw : fs.Wf) (h : fs.setMtime p t = .ok fs') : fs'.Wf := by
+  have := withAnc_ok' h
+  split at this <;> first | (cases this; exact Wf_set fs hw _ _) | (cases this; exact hw) | cases this
+
+theorem Wf_cpyOp {fs fs' : FS} {r : FPath} {x : FPath × SEntry} (hw : fs.Wf) (h : cpyOp fs r x = .ok fs') : fs'.Wf := by
+  unfold cpyOp at h
+  split at h
+  · exact Wf_mkdir hw h
+  · exact Wf_mksymlink hw h
+  · unfold putFile at h
+    cases h1 : fs.createTrunc (r ++ x.1) with
+    | err => simp [h1, OpR.bind] at h
+    | escape => simp [h1, OpR.bind] at h
+    | ok f1 =>
+      simp only [h1, OpR.bind] at h
+      rename_i b m _
+      cases h2 : f1.append (r ++ x.1) b with
+      | err => simp [h2] at h
+      | escape => simp [h2] at h
+      | ok f2 =>
+        simp only [h2] at h
+        exact Wf_setMtime (Wf_append (Wf_createTrunc hw h1) h2) h
+
+theorem Wf_runCpys {r : FPath} (todo : List (FPath × SEntry)) (fs fs' : FS) (hw : fs.Wf)
+    (h : runOps (fun f x => cpyOp f r x) fs todo = .ok fs') : fs'.Wf := by
+  induction todo generalizing fs with
+  | nil => simp only [runOps] at h; cases h; exact hw
+  | cons x xs ih =>
+    simp only [runOps] at h
+    cases hop : cpyOp fs r x with
+    | err => simp [hop, OpR.bind] at h
+    | escape => simp [hop, OpR.bind] at h
+    | ok fs1 =>
+      simp only [hop, OpR.bind] at h
+      exact ih fs1 (Wf_cpyOp hw hop) h
+
+end Rj
